@@ -116,7 +116,7 @@ def main(argv=None):
     pid = a.pid.upper()
     os.environ.setdefault('PYTHONHASHSEED', '0')
     ctx = Ctx(pid, a.tier, seed, a.repo, a.replay)
-    os.environ.setdefault('ZV_PMAP_TIMEOUT', '1800' if a.tier == 'quick' else '9000')
+    os.environ.setdefault('ZV_PMAP_TIMEOUT', '900' if a.tier == 'quick' else '9000')
     try:
         from . import env
         env.setup(a.repo)
